@@ -456,6 +456,7 @@ func (r *Resolver) resolve(ctx context.Context, rs *resolveState) (*dns.Msg, err
 	}
 
 	resp = r.setTags(rs.req, resp)
+	scrubAnswer(resp, minReq.Question[0], rs.servers.Zone)
 	serverFailureResponse := false
 	if resp.Rcode != dns.RcodeSuccess {
 		responseType, _ := dnsutil.ClassifyResponse(resp, time.Now())
@@ -516,6 +517,54 @@ func (r *Resolver) resolve(ctx context.Context, rs *resolveState) (*dns.Msg, err
 	m.Extra = rs.req.Extra
 
 	return m, nil
+}
+
+// scrubAnswer removes from resp's answer section every record the servers of
+// zone cannot speak for in reply to q: it keeps the records owned by the query
+// name, follows CNAMEs only while the target stays inside zone, keeps DNAMEs
+// that are owned inside zone by an ancestor of the name being followed, and
+// drops everything else. An alias target outside the zone (or any unrelated
+// RRset a server appends to its answer) is never relayed or used: the CNAME /
+// DNAME chase re-resolves the target from the target's own authorities.
+func scrubAnswer(resp *dns.Msg, q dns.Question, zone string) {
+	if resp == nil || len(resp.Answer) == 0 {
+		return
+	}
+	keep := make([]bool, len(resp.Answer))
+	cur := dns.CanonicalName(q.Name)
+	for hop := 0; hop <= len(resp.Answer); hop++ {
+		next := ""
+		for i, rr := range resp.Answer {
+			h := rr.Header()
+			owner := dns.CanonicalName(h.Name)
+			covered := h.Rrtype
+			if sig, ok := rr.(*dns.RRSIG); ok {
+				covered = sig.TypeCovered
+			}
+			switch {
+			case owner == cur:
+				keep[i] = true
+				if c, ok := rr.(*dns.CNAME); ok && q.Qtype != dns.TypeCNAME {
+					next = dns.CanonicalName(c.Target)
+				}
+			case covered == dns.TypeDNAME && owner != cur && dnsname.Sub(owner, cur) && dnsname.Sub(zone, owner):
+				keep[i] = true
+			}
+		}
+		if next == "" || next == cur || !dnsname.Sub(zone, next) {
+			break
+		}
+		cur = next
+	}
+	n := 0
+	for i, rr := range resp.Answer {
+		if keep[i] {
+			resp.Answer[n] = rr
+			n++
+		}
+	}
+	clear(resp.Answer[n:])
+	resp.Answer = resp.Answer[:n]
 }
 
 // groupLookup collapses concurrent identical lookups onto one leader
